@@ -17,11 +17,15 @@ Kinds == {"fn", "mod", "trait-self", "static-di", "dyn-async-trait"}
 \* ret: what every function / method of the chain returns: an owned value (u64) or a borrow (&'static str)
 \* work: 0 nothing, 1 one heap allocation, 2 a 4 KiB buffer kept on the stack ACROSS an await (a large future, no allocation)
 \* gen: the function has a further type parameter (the generated trait is generic, `T1<G>`)
-Progs == [kind : Kinds, depth : 1..MaxDepth, async : BOOLEAN, work : 0..2, bounds : 1..2, ret : {"value", "ref"}, gen : BOOLEAN, refarg : BOOLEAN]
+\* ret "opaque": every function returns `impl Fn() -> u64` (an opaque type: naming it in the generated trait must not turn it into a trait object)
+\* mock: the invocations also enable a (test-gated) mock derivation - `mockall` - which must not change what non-test code does
+Progs == [kind : Kinds, depth : 1..MaxDepth, async : BOOLEAN, work : 0..2, bounds : 1..2, ret : {"value", "ref", "opaque"}, gen : BOOLEAN, refarg : BOOLEAN, mock : BOOLEAN]
 WorkAllocs(w) == IF w = 1 THEN 1 ELSE 0
 WellFormed(p) == (p.kind = "dyn-async-trait" => p.async) /\ (p.work = 2 => p.async) /\ (p.gen => p.depth = 1 /\ p.kind \in {"fn", "mod"})
                  \* refarg: every function of the chain takes a further argument BY REFERENCE (`_s: &str`)
                  /\ (p.refarg => p.kind \in {"fn", "mod"} /\ ~p.gen)
+                 /\ (p.ret = "opaque" => p.kind \in {"fn", "mod"} /\ ~p.async /\ p.work = 0 /\ ~p.gen /\ ~p.refarg)
+                 /\ (p.mock => p.kind \in {"fn", "mod"} /\ ~p.gen /\ ~p.refarg /\ p.bounds = 1 /\ p.depth <= 2)
 Static(p) == p.kind # "dyn-async-trait"
 \* Level 2: allocations added by one generated delegation hop.  Hop k (1-based) of a chain of depth d enters
 \* function k; in the trait kinds the last hop is the entraited trait's method, the others are entraited fns.
